@@ -66,6 +66,8 @@ class PyMachine:
         emu.load_rom(rom_image(pieces))
         if scen.get("bare"):
             return      # a fresh emulator with only the ROM inserted (C16: everything else must come from the snapshot)
+        if scen.get("fast_mode"):
+            emu.fast_mode = True      # the minimal execution path the command-line front ends select by default
         t = scen.get("timer", {})
         emu._timer_enabled = bool(t.get("enabled", False))
         emu._timer_mti_period = int(t.get("mti", 0))
